@@ -63,23 +63,26 @@ def untyped(d):
 class Spec:
     """Immutable description of one program."""
 
-    __slots__ = ("parents", "nf", "data", "sub", "seed", "key")
+    __slots__ = ("parents", "nf", "data", "sub", "seed", "mix", "key")
 
-    def __init__(self, parents, nf, data, sub=None, seed="eager"):
+    def __init__(self, parents, nf, data, sub=None, seed="eager", mix=None):
         self.parents = tuple(parents)          # parents[0] is None
         self.nf = tuple(nf)                    # nf[0] == 0
         self.data = tuple(bool(x) for x in data)
         self.sub = tuple(bool(x) for x in (sub or [False] * len(self.parents)))
         self.seed = seed                       # "eager" | "lazy"
-        self.key = (self.parents, self.nf, self.data, self.sub, self.seed)
+        # mix[c]: 0 = bases (parent,); 1 = (PlainMixin, parent); 2 = (parent, PlainMixin) - a non-render class
+        # mixed into the bases of class c; the reference model ignores it
+        self.mix = tuple(int(x) for x in (mix or [0] * len(self.parents)))
+        self.key = (self.parents, self.nf, self.data, self.sub, self.seed, self.mix)
 
     def to_json(self):
         return dict(parents=list(self.parents), nf=list(self.nf), data=[int(x) for x in self.data],
-                    sub=[int(x) for x in self.sub], seed=self.seed)
+                    sub=[int(x) for x in self.sub], seed=self.seed, mix=list(self.mix))
 
     @classmethod
     def from_json(cls, d):
-        return cls(d["parents"], d["nf"], d["data"], d.get("sub"), d.get("seed", "eager"))
+        return cls(d["parents"], d["nf"], d["data"], d.get("sub"), d.get("seed", "eager"), d.get("mix"))
 
     def __repr__(self):
         return f"Spec({self.to_json()})"
@@ -353,7 +356,11 @@ class Prog:
         self.data_cls = [R.Renderable._Data_]
         self.early = []
         for c in range(1, len(spec.parents)):
-            k = meta(f"K{c}{tag}", (self.cls[spec.parents[c]],), {})
+            bases = (self.cls[spec.parents[c]],)
+            if spec.mix[c]:
+                mixin = type(f"Mix{c}", (), {"mixed_in": c})      # plain class, not a render class
+                bases = (mixin,) + bases if spec.mix[c] == 1 else bases + (mixin,)
+            k = meta(f"K{c}{tag}", bases, {})
             self.cls.append(k)
             a = s = d = None
             if spec.nf[c]:
